@@ -8,7 +8,7 @@ in a scratch copy of /repo (never in /repo itself, other work is running against
   3. ./check <ID> (quick) against the patched copy: exit code / signatures
 Keeps the change as /verif/seeded/<ID>-<k>/ (patch.diff, demonstration, meta.json)
 only if 1 and 2 hold.  The scratch copy is removed."""
-import json, os, re, shutil, subprocess, sys, tempfile
+import glob, json, os, re, shutil, subprocess, sys, tempfile
 
 VERIF = os.path.dirname(os.path.dirname(os.path.abspath(__file__)))
 ENV = dict(os.environ, GOFLAGS="-mod=mod", GOPROXY="off", GOSUMDB="off", GOTOOLCHAIN="local")
@@ -24,6 +24,17 @@ def main():
     checks = [pid]
     if "--checks" in sys.argv:
         checks = sys.argv[sys.argv.index("--checks") + 1].split(",")
+    if glob.glob(os.path.join(src, "*.go.txt")) and os.path.exists(os.path.join(src, "meta.json")):
+        # re-verification of a kept change: rebuild the agent's layout in a scratch directory
+        m = json.load(open(os.path.join(src, "meta.json")))
+        tmp = tempfile.mkdtemp(prefix="seedsrc.", dir="/tmp")
+        shutil.copy(os.path.join(src, "patch.diff"), tmp)
+        for f, d in m.get("demonstration", {}).items():
+            os.makedirs(os.path.dirname(os.path.join(tmp, d)), exist_ok=True)
+            shutil.copy(os.path.join(src, f), os.path.join(tmp, d))
+        keep = {k: v for k, v in m.items() if k not in ("demonstration", "confirmed_by_coordinator", "coordinator_ran", "our_checks")}
+        json.dump(keep, open(os.path.join(tmp, "meta.json"), "w"))
+        src = tmp
     demo_txt = open(os.path.join(src, "demo.txt")).read() if os.path.exists(os.path.join(src, "demo.txt")) else ""
     demos = []
     for root, _, fs in os.walk(src):
